@@ -51,7 +51,7 @@ def exclude(ctx, ob):
 
 def main(tier):
     ck = propcheck.Check('C10', tier)
-    N = 17 if tier == 'quick' else 22
+    N = 16 if tier == 'quick' else 22
     ck.assumptions += ['per-line step of format (parser TrimLeft + processLine); line bytes printable ASCII; one job per length and indentation depth',
                        'file-level composition (same classified lines before and after => same regex) is an argument, not a query; the whole-file before/after comparison is part of the translation-validation family']
     jobs = [('cmd.VerifC10LineContent', dict(fixlen={'line': L}, params={'indent': d}, unwind=N + 12, exclude=exclude, timeout_ms=120000, terminal_obligations=()))
